@@ -153,6 +153,17 @@ def selftest_models(item, res):
                     checks += 1
                     if got != want:
                         raise EngineError("SInt.%s mismatch: %d,%d -> %d vs %d" % (name, a, c, got, want))
+            # bit operations on possibly negative values (Python's infinite two's complement)
+            sa = SInt(va, -2048, 2047, 12)
+            c = rnd.randint(-300, 300)
+            for name, f in (("and-", lambda x: x & c), ("or-", lambda x: x | c), ("xor-", lambda x: x ^ c), ("rshift-", lambda x: x >> 3), ("lshift-", lambda x: x << 3),
+                            ("invert", lambda x: ~x), ("x&(x-1)", lambda x: x & (x - 1)), ("x|(x+1)", lambda x: x | (x + 1))):
+                r = f(sa)
+                want = f(a)
+                got = r if isinstance(r, int) else ex_.model().eval(r.e, model_completion=True).as_signed_long()
+                checks += 1
+                if got != want:
+                    raise EngineError("SInt.%s mismatch: %d,%d -> %d vs %d" % (name, a, c, got, want))
             ex_.solver.pop()
             ex_.solver.push()
         return True
